@@ -3,6 +3,7 @@ use crate::abi::{AbiBinder, AbiOwnBinder};
 use crate::common::Obs;
 use crate::gas::GasBinder;
 use crate::gateway::GatewayBinder;
+use crate::its::ItsBinder;
 use crate::operators::OperatorsBinder;
 use crate::token::TokenBinder;
 use crate::upgrade::UpgradeBinder;
@@ -16,6 +17,7 @@ pub enum B {
     Upgrade(UpgradeBinder),
     Abi(AbiBinder),
     AbiOwn(AbiOwnBinder),
+    Its(Box<ItsBinder>),
 }
 
 impl B {
@@ -28,6 +30,7 @@ impl B {
             B::Upgrade(b) => b.exec(act),
             B::Abi(b) => b.exec(act),
             B::AbiOwn(b) => b.exec(act),
+            B::Its(b) => b.exec(act),
         }
     }
     pub fn project(&mut self) -> J {
@@ -39,6 +42,7 @@ impl B {
             B::Upgrade(b) => b.project(),
             B::Abi(b) => b.project(),
             B::AbiOwn(b) => b.project(),
+            B::Its(b) => b.project(),
         }
     }
 }
@@ -52,6 +56,7 @@ pub fn make_binder(module: &str, inst: &J, init: &J) -> B {
         "Upgrade" => B::Upgrade(UpgradeBinder::new(inst, init)),
         "Abi" => B::Abi(AbiBinder::new(inst, init)),
         "AbiOwn" => B::AbiOwn(AbiOwnBinder::new(inst, init)),
+        "ITS" => B::Its(Box::new(ItsBinder::new(inst, init))),
         m => panic!("unknown module {m}"),
     }
 }
